@@ -396,6 +396,7 @@ func (fr *Frame) applyContract(st *State, fc *FuncContract, callee *ssa.Function
 	u := fr.u
 	pre := st.clone()
 	env := u.contractEnv(fc, callee, sig, args, st, pre, recvT)
+	env.tpFrame = fr
 	for i, c := range fc.Requires {
 		t := env.trBool(c.E)
 		u.oblige(st, "pre", fmt.Sprintf("%s/pre:%s:%s", fr.topFrame().fnLabel(), shortName(name), clauseName(c, i)), t, pos, c, "precondition of "+name+": "+c.Src)
@@ -525,6 +526,16 @@ func (u *Unit) havocDesignator(env *Env, st *State, d string) {
 		u.havocAll(st)
 		return
 	}
+	if strings.HasPrefix(d, "heap:") {
+		// raw heap-name prefix: every registered heap array whose name starts with it
+		pre := strings.TrimPrefix(d, "heap:")
+		for _, name := range sortedKeys(u.heapSort) {
+			if strings.HasPrefix(name, pre) {
+				u.heapHavoc(st, name)
+			}
+		}
+		return
+	}
 	if strings.HasSuffix(d, "[*]") {
 		e, err := ParseExpr(strings.TrimSuffix(d, "[*]"))
 		if err != nil {
@@ -584,6 +595,16 @@ func (u *Unit) havocDesignator(env *Env, st *State, d string) {
 				}
 			}
 		}
+	}
+	// generic struct type written with its type parameters, e.g. item[V].index: match the heap by name
+	if strings.Contains(left, "[") && env.pkg != nil {
+		prefix := "H$" + env.pkg.Name() + "." + left[:strings.Index(left, "[")] + "["
+		for _, name := range sortedKeys(u.heapSort) {
+			if strings.HasPrefix(name, prefix) && strings.HasSuffix(name, "$"+fname) {
+				u.heapHavoc(st, name)
+			}
+		}
+		return
 	}
 	e, err := ParseExpr(left)
 	if err != nil {
@@ -762,9 +783,9 @@ func (fr *Frame) doAppend(st *State, c *ssa.CallCommon, args []Val) Val {
 		inPlace := oldRowS
 		fresh := app(take, oldRowS, app("sl_off", s.T), app("sl_len", s.T))
 		for k := 0; k < n; k++ {
-			ek := sel(tRow, app("+", app("sl_off", t.T), fmt.Sprint(k)))
-			inPlace = sto(inPlace, fmt.Sprintf("(+ (sl_off %s) (sl_len %s) %d)", s.T, s.T, k), ek)
-			fresh = sto(fresh, fmt.Sprintf("(+ (sl_len %s) %d)", s.T, k), ek)
+			ek := sel(tRow, app("ix", app("sl_off", t.T), fmt.Sprint(k)))
+			inPlace = sto(inPlace, fmt.Sprintf("(ix (sl_off %s) (+ (sl_len %s) %d))", s.T, s.T, k), ek)
+			fresh = sto(fresh, fmt.Sprintf("(ix 0 (+ (sl_len %s) %d))", s.T, k), ek)
 		}
 		u.assume(eq(newRow, ite(fits, inPlace, fresh)))
 		u.heapStoreAt(st, h, resBase, newRow)
@@ -816,7 +837,7 @@ func (u *Unit) arrTake(es string) string {
 	if !u.enc.declared[name] {
 		asrt := "(Array Int " + es + ")"
 		u.enc.raw(name, fmt.Sprintf("(declare-fun %s (%s Int Int) %s)", name, asrt, asrt))
-		u.enc.axioms = append(u.enc.axioms, fmt.Sprintf("(forall ((a!t %s) (o!t Int) (n!t Int) (j!t Int)) (! (=> (and (<= 0 j!t) (< j!t n!t)) (= (select (%s a!t o!t n!t) j!t) (select a!t (+ o!t j!t)))) :pattern ((select (%s a!t o!t n!t) j!t))))", asrt, name, name))
+		u.enc.axioms = append(u.enc.axioms, fmt.Sprintf("(forall ((a!t %s) (o!t Int) (n!t Int) (j!t Int)) (! (=> (and (<= 0 j!t) (< j!t n!t)) (= (select (%s a!t o!t n!t) j!t) (select a!t (ix o!t j!t)))) :pattern ((select (%s a!t o!t n!t) j!t))))", asrt, name, name))
 	}
 	return name
 }
